@@ -26,7 +26,7 @@ Lemma walk_bin_cmp op sa sb a b :
   walk c dd sa = Ok a -> walk c dd sb = Ok b ->
   walk c dd (LNode "comparison" [sa; LTok (TSym op); sb]) = call_method c (remap op_remap op) a [b].
 Proof. intros Ha Hb. rewrite walk_node_eq, wn_comparison.
-  cbn [List.length Nat.ltb Nat.leb Nat.even orb map odds evens nth tok_text]. rewrite andb_false_r.
+  cbn [List.length Nat.ltb Nat.leb Nat.even orb map odds evens nth tok_text].
   rewrite Ha, Hb. cbn [chain_fold]. reflexivity. Qed.
 
 Lemma walk_power sa sb a b :
